@@ -60,6 +60,11 @@ func main() {
 			*lint = priv
 		}
 	}
+	// snapshot of the repository: the survey must not see edits made to it while it runs
+	base := filepath.Join(*scratch, "base")
+	os.RemoveAll(base)
+	copyDir(*repo, base)
+	*repo = base
 	prior := map[int]*mutant{}
 	if *recheck != "" {
 		b, _ := os.ReadFile(*recheck)
